@@ -69,6 +69,18 @@ func (p *Prog) startInfo(c *Ctx, rule string) *startInfo {
 
 // isPartsIdx: e is parts[k].
 func (si *startInfo) isPartsIdx(e ast.Expr, k int64) bool {
+	// look through single-definition aliases, fields of a parsed-line struct
+	// and type conversions (Protocol(parts[4]))
+	for i := 0; i < 4; i++ {
+		e = ast.Unparen(si.p.Deref(si.f, e))
+		if call, ok := e.(*ast.CallExpr); ok && len(call.Args) == 1 {
+			if tv, ok := si.info.Types[call.Fun]; ok && tv.IsType() {
+				e = call.Args[0]
+				continue
+			}
+		}
+		break
+	}
 	ix, ok := ast.Unparen(e).(*ast.IndexExpr)
 	if !ok || identObj(si.info, ix.X) != si.parts {
 		return false
